@@ -70,6 +70,8 @@ def run(ctx):
             ok = p.retval[0] == "new" and p.retval[3] == (o,) and kw.get("data") == data and t.val(kw.get("offset1")) == p0 \
                 and t.val(kw.get("offset2")) == N.mk_add(p0, L) and t.val(kw.get("length")) == L
             ctx.ob("C14.R2", fi, ok, "data branch returns obj's entries plus data, offset1, offset2, length of what was written", key="data branch result")
+            later = [e for e in p.events if e.kind in ("MUT", "STORE", "CTXUPDATE", "CTXSET") and (e.a.get("base") == p.retval or e.a.get("ctx") == p.retval)]
+            ctx.ob("C14.R2", fi, not later, "data branch: the freshly measured fields are the last word in the result", key="data branch fresh fields win")
         elif no_data and has_val and p.returns:
             seen.add("value")
             o = has_val[0][3]
@@ -86,12 +88,15 @@ def run(ctx):
             ok = D is not None and kw.get("data") == read["res"] and t.pos_before(read) == p0 and t.val(read["length"]) == D \
                 and t.val(kw.get("offset1")) == p0 and t.val(kw.get("offset2")) == N.mk_add(p0, D) and t.val(kw.get("length")) == D and t.final == N.mk_add(p0, D)
             ctx.ob("C14.R2", fi, ok, "value branch reads back exactly the bytes just built, reports their offsets/length and ends after them", key="value branch result")
+            later = [e for e in p.events if e.kind in ("MUT", "STORE", "CTXUPDATE", "CTXSET") and (e.a.get("base") == p.retval or e.a.get("ctx") == p.retval)]
+            ctx.ob("C14.R2", fi, not later and set(kw) == {"data", "value", "offset1", "offset2", "length"} and p.retval[0] == "new" and p.retval[3] in ((o,), ()),
+                   "value branch: the freshly measured data/value/offset1/offset2/length are the last word in the result (entries of the supplied object, e.g. stale offsets of an earlier parse, never override them)", key="value branch fresh fields win")
             ctx.ob("C14.R2", fi, kw.get("value") == N.mk_ite(N.mk_cmp("is", sub["res"], N.NONE), val, sub["res"]), "value is the build result (or the supplied value when the builder returns None)", key="value branch value")
         elif no_data and no_val:
             seen.add("neither")
             ctx.ob("C14.R2", fi, p.outcome[0] == "raise" and p.outcome[1].get("cls") == "RawCopyError" and not p.of("WRITE", "SUB"), "neither key: RawCopyError before anything is written", key="neither")
     ctx.ob("C14.R2", fi, seen == {"data", "value", "neither"}, "data / value / neither branches analysed (%s)" % sorted(seen), key="branches covered")
-    ctx.floor("C14.R2", 7)
+    ctx.floor("C14.R2", 9)
 
     # ---------------------------------------------------------------- R3
     digest = ("call", N.selfattr("hashfunc"), (("call", N.selfattr("bytesfunc"), (CTX,), ()),), ())
@@ -123,6 +128,21 @@ def run(ctx):
     ok = mode is not None and N.is_const(mode) and all(c in mode[2] for c in "+b") and ("w" in mode[2] or "r" in mode[2])
     ctx.ob("C14.R4", fi, ok, "build_file opens the file in a binary read+write mode so RawCopy can read back (mode %r)" % (mode[2] if mode else None), key="mode")
     ctx.floor("C14.R4", 1)
+
+    # ---------------------------------------------------------------- R5 offsets seen inside delimiting wrappers (shared with C08.R3)
+    # RawCopy reports stream.tell(); inside Prefixed/FixedSized/NullTerminated/NullStripped/ProcessXor/OffsettedEnd that is the substream's tell,
+    # which is absolute only if the wrapper passed the outer position of the region's first byte as the substream offset
+    from ..core import Ctx
+    from . import C08
+    sub = Ctx("C08", ctx.tier, ctx.root, model=ctx.model)
+    sub._summ = summariser(ctx)
+    C08.run(sub)
+    for e in sub.errors:
+        ctx.error("shared C08 rules: " + e)
+    for o in sub.obligations:
+        if o.rule == "C08.R3":
+            ctx.ob("C14.R5", o.where, o.ok, o.what, key=o.key, loc=o.loc, detail=o.detail)
+    ctx.floor("C14.R5", 12)
 
     # positive control: length = offset2
     ctl = control_model(
